@@ -588,7 +588,10 @@ def gen_persist(rng, tier):
     s = rng.randrange(0, 1000)
     s2 = rng.choice([x for x in [0, 1, 2, 3, s + 1, s + 17, "random"] if x != s])
     case = {"kind": "persist", "objs": [], "tasks": [], "grammars": [], "seed_w": s, "seed_r": s2,
-            "protocol": rng.choice([0, 1, 2, 3, 4, 5, None]), "optimize": rng.random() < 0.7}
+            "protocol": rng.choice([0, 1, 2, 3, 4, 5, None]), "optimize": rng.random() < 0.7,
+            # history before saving: the objects were already hashed / printed / counted / used as keys in the writing
+            # process (whatever they memoised then must not travel to a process with another hash seed)
+            "warm": rng.random() < 0.6}
     if rng.random() < 0.4:
         case["grammars"] = [gen_grammar(rng, tier)]
         return case
@@ -933,7 +936,7 @@ def check_persist(case, M):
         rep = json.loads(outs[1]) if len(outs) == 2 else None
     finally:
         shutil.rmtree(tmp, ignore_errors=True)
-    ntags = ["persist"]
+    ntags = ["persist", "persist.warm" if case.get("warm") else "persist.cold"]
     if rep is not None:
         for r in rep["objs"]:
             d = case["objs"][r["index"]]
